@@ -150,6 +150,7 @@ func requests() []request {
 	}
 	methods := []string{"GET", "POST", "DELETE", "PUT", "HEAD"}
 	names := []string{"", "name=", "name=nosuchdb", "name=db", "nme=db"}
+	escaping := []string{"name=..%2F..%2Fescaped", "name=sub%2Fdb", "name=.."} // names that are not file names
 	ids := []string{"", "id=abc", "id=99999999999999999999999", "id=-5", "id=0", "id=4242"}
 	nodeHdrs := []string{"", "own", "foreign", "malformed"}
 	allowed := map[string]string{"/export": "GET", "/halt": "POST,DELETE", "/handoff": "POST", "/import": "POST", "/info": "GET", "/promote": "POST", "/stream": "POST", "/tx": "POST", "/events": "GET"}
@@ -180,6 +181,10 @@ func requests() []request {
 					add(request{Method: m, Path: p, Query: q, Invalid: q != "name=db"})
 				}
 			case "/import":
+				for _, q := range escaping {
+					add(request{Method: m, Path: p, Query: q, Body: "sqlite-valid", Invalid: true})
+					add(request{Method: m, Path: p, Query: q, Body: "garbage", Invalid: true})
+				}
 				for _, q := range names {
 					for _, b := range []string{"empty", "garbage", "sqlite-valid", "sqlite-trunc"} {
 						inv := q == "" || q == "name=" || q == "nme=db" || b != "sqlite-valid"
@@ -190,6 +195,11 @@ func requests() []request {
 				hnames := names
 				if m == "DELETE" {
 					hnames = append(append([]string{}, names...), "name=ghost") // a name no earlier request can have created
+				}
+				if m == "POST" {
+					for _, q := range escaping {
+						add(request{Method: m, Path: p, Query: q + "&id=4242", NodeHdr: "foreign", Invalid: true})
+					}
 				}
 				if m == "POST" {
 					// refused lock id together with a name nothing else creates: the refusal must come before the database is created
@@ -223,7 +233,7 @@ func requests() []request {
 				}
 				// the same endpoint addressed by the holder of lock 777 (held in the "held" configuration) with files
 				// that are well encoded but do not extend the position
-				for _, b := range []string{"ltx-overlap", "ltx-gap", "ltx-again", "ltx-wrong-pre", "ltx-snapshot", "ltx-trunc-mid", "garbage"} {
+				for _, b := range []string{"ltx-overlap", "ltx-gap", "ltx-again", "ltx-wrong-pre", "ltx-snapshot", "ltx-other-pagesize", "ltx-trunc-mid", "garbage"} {
 					for _, nh := range []string{"", "foreign"} {
 						add(request{Method: m, Path: p, Query: "name=db&lockID=777", NodeHdr: nh, Body: b, Invalid: true})
 					}
@@ -373,6 +383,20 @@ func run1(c Case) (res Result) {
 	bods["ltx-again"] = mk(cur.TXID, cur.TXID, cur.PostApplyChecksum, []uint32{2})
 	bods["ltx-wrong-pre"] = mk(cur.TXID+1, cur.TXID+1, cur.PostApplyChecksum^0x10, []uint32{2})
 	bods["ltx-snapshot"] = mk(1, 1, 0, all)
+	{
+		// in sequence, right pre-apply checksum, but another page size than the database has
+		var b bytes.Buffer
+		e := ltx.NewEncoder(&b)
+		_ = e.EncodeHeader(ltx.Header{Version: 1, PageSize: 2 * ps, Commit: 2, MinTXID: cur.TXID + 1, MaxTXID: cur.TXID + 1, Timestamp: 5, PreApplyChecksum: cur.PostApplyChecksum, NodeID: 0xBEEF})
+		pg := make([]byte, 2*ps)
+		copy(pg, next.Pages[0])
+		_ = e.EncodePage(ltx.PageHeader{Pgno: 1}, pg)
+		e.SetPostApplyChecksum(ltx.ChecksumFlag | 0x1234)
+		if err := e.Close(); err != nil {
+			panic(err)
+		}
+		bods["ltx-other-pagesize"] = b.Bytes()
+	}
 
 	var client *http.Client
 	if c.Proto == "h2c" {
